@@ -354,6 +354,8 @@ class Interp:
             return _PyMethod(base, attr)
         if isinstance(base, dict) and attr in ("update", "setdefault", "pop", "copy", "clear"):
             return _PyMethod(base, attr)
+        if isinstance(base, (set, frozenset)) and attr in ("isdisjoint", "issubset", "issuperset", "union", "intersection", "difference", "symmetric_difference"):
+            return _PyMethod(base, attr)
         if isinstance(base, set) and attr in ("add", "discard", "remove", "update", "copy"):
             return _PyMethod(base, attr)
         if isinstance(base, tuple) and attr in ("index", "count"):
@@ -1005,6 +1007,17 @@ class Interp:
                 # identity/equality on abstract values: only symbols and concrete values are comparable
                 if not all(is_concrete(x) for x in list(fv.obj) + a):
                     raise Undecided("search in a list of abstract values")
+            if isinstance(fv.obj, (set, frozenset)) and fv.name in ("isdisjoint", "issubset", "issuperset", "union", "intersection", "difference", "symmetric_difference"):
+                other = []
+                for x in a:
+                    if isinstance(x, _DictView):
+                        x = x.materialise()
+                    if not isinstance(x, (list, tuple, set, frozenset, dict)):
+                        x = self.iterate(x, node)
+                    if not all(is_concrete(y) for y in x) or not all(is_concrete(y) for y in fv.obj):
+                        raise Undecided(f"set.{fv.name} on abstract elements")
+                    other.append([_hashable(y) for y in x])
+                return getattr(fv.obj, fv.name)(*other)
             if fv.name in ("update", "extend", "union", "intersection", "difference", "join") and any(isinstance(x, Unknown) for x in a):
                 raise Undecided(f"container method {fv.name} with an unmodelled argument")
             if isinstance(fv.obj, dict) and fv.name == "update" and len(a) == 1 and isinstance(a[0], list):
